@@ -77,7 +77,7 @@ def gen_cfg(R, tier, all_atom=None):
         if all_atom:
             dtext = {a: [SYM[o] + '[%s%s]' % (k, lab) for (k, lab, o) in lst] for a, lst in d.items()}
             text, _pos = molgen.render_fragment(R, m, list(range(len(m.atoms))), dtext,
-                                               dict(bracket=0.1, omit_h=0.0, explicit_single=0.0))
+                                               dict(bracket=0.25, omit_h=0.5, explicit_single=0.0))    # bracket atoms often without their H count: valence is refilled
         else:
             text = ''.join('[#X%d]' % a + ''.join(SYM[o] + '[%s%s]' % (k, lab) for (k, lab, o) in d.get(a, []))
                            for a in range(n))
